@@ -44,6 +44,13 @@ class Construction:
     for i in range(len(strings)-1, 0, -1):
       try:
         n, t, s = gfapy.Field._parse_gfa_tag(strings[i])
+        if self.vlevel == 0:
+          # whether a field is a tag or a positional field depends on its name
+          # and content, which are therefore examined at every validation level
+          if n in self._data:
+            raise gfapy.NotUniqueError(
+              "Tag {} found multiple times".format(n))
+          gfapy.Field._validate_gfa_field(s, t, n)
         self._initialize_tag(n, t, s)
       except:
         break
